@@ -310,9 +310,9 @@ theorem fracZone_frac {o : Int} {n : Nat} (hn : n < 1000) (hmin : o % 60 = 0) (h
   simp only [hf, hz, Option.bind_eq_bind, Option.bind_some, Option.pure_def]
 
 /-- the text `value_string` produces scans back to its own fields -/
-theorem scan_format {t : DT} (hv : t.Valid) {o : Int} (hmin : o % 60 = 0) (h1 : -86400 < o) (h2 : o < 86400) :
-    scanDate (isoFormatWith o t) = none ∧
-    scanDateTime (isoFormatWith o t) =
+theorem scan_format {t : DT} (hv : t.Valid) {o : Int} (us : Int) (hmin : o % 60 = 0) (h1 : -86400 < o) (h2 : o < 86400) :
+    scanDate (isoFormatUs o t us) = none ∧
+    scanDateTime (isoFormatUs o t us) =
       some ⟨t.year.toNat, t.month.toNat, t.day.toNat, t.hour.toNat, t.minute.toNat, t.second.toNat, t.ms.toNat * 1000, o⟩ := by
   obtain ⟨y1, y2, m1, m2, d1, d2, a1, a2, b1, b2, c1, c2, e1, e2⟩ := hv
   have hY : t.year.toNat < 10000 := by omega
@@ -325,33 +325,34 @@ theorem scan_format {t : DT} (hv : t.Valid) {o : Int} (hmin : o % 60 = 0) (h1 : 
   have hI : t.minute.toNat < 100 := by omega
   have hS : t.second.toNat < 100 := by omega
   have hms : t.ms.toNat < 1000 := by omega
-  have hfz : fracZone? ((if t.ms = 0 then [] else '.' :: pad3 t.ms.toNat) ++ fmtOffset o) = some (t.ms.toNat * 1000, o) := by
-    by_cases h0 : t.ms = 0
-    · simp only [h0, if_true, List.nil_append, fracZone_nofrac hmin h1 h2]; rfl
+  have hfz : fracZone? ((if t.ms = 0 ∧ us = 0 then [] else '.' :: pad3 t.ms.toNat) ++ fmtOffset o) = some (t.ms.toNat * 1000, o) := by
+    by_cases h0 : t.ms = 0 ∧ us = 0
+    · simp only [h0, and_self, if_true, List.nil_append, fracZone_nofrac hmin h1 h2]; rfl
     · simp only [h0, if_false, List.cons_append, fracZone_frac hms hmin h1 h2]
   constructor
-  · simp [isoFormatWith, pad4, pad2, scanDate]
-  · simp only [isoFormatWith, pad4, pad2, List.cons_append, List.nil_append, scanDateTime, num4?_pad hY, num2?_pad hM,
+  · simp [isoFormatUs, pad4, pad2, scanDate]
+  · simp only [isoFormatUs, pad4, pad2, List.cons_append, List.nil_append, scanDateTime, num4?_pad hY, num2?_pad hM,
       num2?_pad hD, num2?_pad hH, num2?_pad hI, num2?_pad hS, hfz, Option.bind_eq_bind, Option.bind_some, Option.pure_def]
 
 /-- **C16 / ISO round trip — PARTIAL.** Full statement of the property: "for every datetime `t` that exists in the process
 time zone (whole-minute UTC offset), `datetimeISOParse(datetimeISOFormat(t)) = t` to the millisecond, whatever the zone".
 Proved here: for ANY pair of offset functions `offL` (seconds east of UTC that `astimezone()` picks for a naive local time,
-argument = local milliseconds) and `offU` (offset in force at a UTC instant) and every well-formed `t`,
-`isoParse offU (isoFormat offL t) = some t`, under the explicit hypotheses
+argument = local milliseconds) and `offU` (offset in force at a UTC instant), every well-formed `t` and every
+sub-millisecond remainder `us` (what `datetimeNow()` adds; the text is cut to the millisecond),
+`isoParse offU (isoFormatUs (offL t) t us) = some t`, under the explicit hypotheses
 * `hmin`  the offset is a whole number of minutes (the property's carve-out; `iso_offset_seconds_lost` shows it is needed),
 * `hlo/hhi`  |offset| < 24 h (true of every `tzinfo`; needed for the two-digit hour field),
 * `hexists`  the local time exists: the instant `t − offL t` maps back to the same offset (`astimezone` round trip),
 * `hutc`  that UTC instant lies in years 1..9999 (fails only within a day of the ends of the range).
 What is missing for the unqualified statement: `astimezone()` over the OS zone database is not modelled — that
 `offL`/`offU` are what CPython computes is an assumption, sampled per zone by the `dt-iso` stream. -/
-theorem iso_roundtrip_partial (offL offU : Int → Int) (t : DT) (hv : t.Valid)
+theorem iso_roundtrip_partial (offL offU : Int → Int) (t : DT) (us : Int) (hv : t.Valid)
     (hmin : offL (toLocalMs t) % 60 = 0)
     (hlo : -86400 < offL (toLocalMs t)) (hhi : offL (toLocalMs t) < 86400)
     (hexists : offU (toLocalMs t - offL (toLocalMs t) * 1000) = offL (toLocalMs t))
     (hutc : (ofLocalMs (toLocalMs t - offL (toLocalMs t) * 1000)).isSome = true) :
-    isoParse offU (isoFormat offL t) = some t := by
-  obtain ⟨hd, hdt⟩ := scan_format hv hmin hlo hhi
+    isoParse offU (isoFormatUs (offL (toLocalMs t)) t us) = some t := by
+  obtain ⟨hd, hdt⟩ := scan_format hv us hmin hlo hhi
   obtain ⟨u, hu⟩ := Option.isSome_iff_exists.1 hutc
   have hmk : mkDT (t.year.toNat : Int) t.month.toNat t.day.toNat t.hour.toNat t.minute.toNat t.second.toNat
       ((t.ms.toNat * 1000 : Nat) / 1000 : Int) = some t := by
@@ -360,17 +361,27 @@ theorem iso_roundtrip_partial (offL offU : Int → Int) (t : DT) (hv : t.Valid)
     rw [e, Int.toNat_of_nonneg (by omega), Int.toNat_of_nonneg (by omega), Int.toNat_of_nonneg (by omega),
       Int.toNat_of_nonneg a1, Int.toNat_of_nonneg b1, Int.toNat_of_nonneg c1]
     simp only [mkDT, y1, y2, m1, m2, d1, d2, a1, a2, b1, b2, c1, c2, e1, e2, and_self, if_true]
-  simp only [isoParse, isoFormat, hd, hdt, hmk, hu, hexists]
+  simp only [isoParse, hd, hdt, hmk, hu, hexists]
   have : toLocalMs t - offL (toLocalMs t) * 1000 + offL (toLocalMs t) * 1000 = toLocalMs t := by omega
   rw [this]
   exact ofLocalMs_toLocalMs hv
+
+/-- the instance for values made inside BareScript (no sub-millisecond part): `isoFormat` itself -/
+theorem iso_roundtrip_format_partial (offL offU : Int → Int) (t : DT) (hv : t.Valid)
+    (hmin : offL (toLocalMs t) % 60 = 0)
+    (hlo : -86400 < offL (toLocalMs t)) (hhi : offL (toLocalMs t) < 86400)
+    (hexists : offU (toLocalMs t - offL (toLocalMs t) * 1000) = offL (toLocalMs t))
+    (hutc : (ofLocalMs (toLocalMs t - offL (toLocalMs t) * 1000)).isSome = true) :
+    isoParse offU (isoFormat offL t) = some t :=
+  iso_roundtrip_partial offL offU t 0 hv hmin hlo hhi hexists hutc
 
 /-- non-vacuity of `iso_roundtrip_partial`: Kathmandu (+05:45) with milliseconds, New York standard time without -/
 example : isoFormatWith 20700 ⟨2024, 2, 29, 1, 2, 3, 45⟩ = "2024-02-29T01:02:03.045+05:45".toList ∧
     isoParse (fun _ => 20700) "2024-02-29T01:02:03.045+05:45".toList = some ⟨2024, 2, 29, 1, 2, 3, 45⟩ ∧
     isoFormatWith (-18000) ⟨124, 12, 31, 23, 59, 59, 0⟩ = "0124-12-31T23:59:59-05:00".toList ∧
     isoParse (fun _ => -18000) "0124-12-31T23:59:59-05:00".toList = some ⟨124, 12, 31, 23, 59, 59, 0⟩ ∧
-    isoParse (fun _ => 20700) "2024-01-01T00:00:00.999999Z".toList = some ⟨2024, 1, 1, 5, 45, 0, 999⟩ := by decide +kernel
+    isoParse (fun _ => 20700) "2024-01-01T00:00:00.999999Z".toList = some ⟨2024, 1, 1, 5, 45, 0, 999⟩ ∧
+    isoFormatUs 0 ⟨2024, 3, 10, 2, 30, 0, 0⟩ 1 = "2024-03-10T02:30:00.000+00:00".toList := by decide +kernel
 
 /-- the whole-minute hypothesis cannot be dropped: under New York local mean time (−4:56:02) the seconds of the offset are
 not printed, and the text parses to a datetime two seconds earlier -/
